@@ -212,14 +212,26 @@ class PathCtx:
         if z3.is_int_value(term):
             return term.as_long()
         n = 0
+        lo = None            # every value below lo is known infeasible
         while True:
             if self._check() != z3.sat:
                 raise PathInfeasible()
             v = self.solver.model().eval(term, model_completion=True).as_long()
             # candidates must not depend on the model the solver happens to return (paths are re-executed with a
-            # decision prefix): always branch on the SMALLEST feasible value
-            while self._check(term < v) == z3.sat:
-                v = self.solver.model().eval(term, model_completion=True).as_long()
+            # decision prefix): always branch on the SMALLEST feasible value (binary search once a lower bound is known)
+            if lo is None:
+                while self._check(term < v) == z3.sat:
+                    v = self.solver.model().eval(term, model_completion=True).as_long()
+            else:
+                a, b = lo, v
+                while a < b:
+                    mid = (a + b) // 2
+                    if self._check(term <= mid) == z3.sat:
+                        b = self.solver.model().eval(term, model_completion=True).as_long()
+                    else:
+                        a = mid + 1
+                v = b
+            lo = v + 1
             if self.decide(term == v):
                 return v
             n += 1
